@@ -18,10 +18,10 @@ def type_of(imports, term):
     return out[i + 8:].rstrip()
 
 def write(pid, header, imports, items, extra=""):
-    lines = ["(* %s *)" % header.strip(), imports, ""]
+    lines = ["(* %s *)" % "\n   ".join(textwrap.wrap(header.strip(), 116)), imports, ""]
     for name, term, comment in items:
         ty = type_of(imports, term)
-        if comment: lines.append("(* %s *)" % comment.strip())
+        if comment: lines.append("(* %s *)" % "\n   ".join(textwrap.wrap(comment.strip(), 116)))
         lines.append("Theorem %s :\n  %s." % (name, ty.replace("\n", "\n  ")))
         lines.append("Proof. exact (%s). Qed." % term)
         lines.append("Print Assumptions %s.\n" % name)
